@@ -113,6 +113,20 @@ theorem C19_error_path (H : HandleOps σ) (amount : Nat)
 
 /-! ### the temporary argument array -/
 
+private theorem bne_eq_not_some_beq (k h : Str) : (k != h) = !(some h == some k) := by
+  by_cases e : k = h
+  · subst e; simp
+  · have h1 : (k == h) = false := by simpa using e
+    have h2 : (h == k) = false := by simpa using fun x : h = k => e x.symm
+    simp [bne, h1, h2]
+
+private theorem beq_eq_some_beq (k h : Str) : (k == h) = (some h == some k) := by
+  by_cases e : k = h
+  · subst e; simp
+  · have h1 : (k == h) = false := by simpa using e
+    have h2 : (h == k) = false := by simpa using fun x : h = k => e x.symm
+    simp [h1, h2]
+
 /-- Publication allocates exactly one fresh handle (none when there are no arguments); after the
     call the handle table is what the BODY left, minus that handle - on every path, because the
     removal does not look at the body's result.  So the table after the call equals the table
@@ -143,8 +157,7 @@ theorem C19_temp_array_released (H : HandleOps σ) (hl : H.Lawful) (amount : Nat
     | none => simp
     | some h =>
       simp only [hl.live_remove]
-      congr 1
-      rw [Bool.eq_iff_iff]; simp [eq_comm]
+      rw [bne_eq_not_some_beq]
   by_cases he : args.isEmpty = true
   · have hp : p = (none, vars, H.setCtx st scope) := by
       show publish H scope args vars (H.setCtx st scope) = _
@@ -163,8 +176,7 @@ theorem C19_temp_array_released (H : HandleOps σ) (hl : H.Lawful) (amount : Nat
     · intro k
       rw [hp]
       simp only [hl.live_put, hl.live_setCtx]
-      congr 1
-      rw [Bool.eq_iff_iff]; simp [eq_comm]
+      rw [beq_eq_some_beq]
     · intro h hh
       rw [hp] at hh
       simp only [Option.some.injEq] at hh
@@ -207,10 +219,15 @@ theorem C19_leak_detected (H : HandleOps σ) (amount : Nat)
                           (publish H scope args vars (H.setCtx st scope)).2.2).2.1 extra ≠ none) :
     ∃ msg, (aliasRun H amount body scope args vars st).1 = .crash msg := by
   rw [aliasRun_run H amount body scope args vars st hargs]
-  simp only [cleanup]
   have hlt : vars.length <
+      (cleanup H scope (H.getCtx st) (publish H scope args vars (H.setCtx st scope)).1
+        (body (publish H scope args vars (H.setCtx st scope)).2.1
+              (publish H scope args vars (H.setCtx st scope)).2.2).2.1
+        (body (publish H scope args vars (H.setCtx st scope)).2.1
+              (publish H scope args vars (H.setCtx st scope)).2.2).2.2).1.length := by
+    show vars.length <
       (clear scope (body (publish H scope args vars (H.setCtx st scope)).2.1
-                         (publish H scope args vars (H.setCtx st scope)).2.2).2.1).length := by
+                         (publish H scope args vars (H.setCtx st scope)).2.2).2.1).length
     apply length_lt_of_keys hnk extra
     · intro x hx
       have hpx : underPrefix scope x = false := by
@@ -220,7 +237,7 @@ theorem C19_leak_detected (H : HandleOps σ) (amount : Nat)
       rw [get_clear]; simp only [hpx, Bool.false_eq_true, if_false]; exact hkeep x hx
     · exact hx2
     · rw [get_clear]; simp only [hx1, Bool.false_eq_true, if_false]; exact hx3
-  exact ⟨_, by simp only [hlt, if_true]⟩
+  exact ⟨_, by simp only []; rw [if_pos hlt]⟩
 
 /-- What the detector can NOT see - this is why `C19_wrapper_frame` needs the frame hypothesis
     on the body and cannot lean on the detector: "whenever the call changes the value a caller
